@@ -559,6 +559,8 @@ var senTexts = []struct{ class, text string }{
 	{"single-quote-esc", "'a\\'b'"}, {"concat", "\"abc\" + \"def\""}, {"concat-member", "{a:\"x\" + \"y\"}"}, {"line-comment", "// note\n[1 2]"},
 	{"line-comment-inside", "[1 // one\n 2]"}, {"block-comment", "/* note */ [1 2]"}, {"block-comment-inside", "{a:1 /* x */ b:2}"},
 	{"numbers", "[0 -1 2.5 1e3 -0.5e-2]"}, {"number-token", "[1a 2b]"}, {"dollar", "{$a:1 b$:2}"}, {"function", "[ISODate(\"2021-01-01T00:00:00Z\")]"},
+	{"concat-token-member", "{first:\"x\" second:abc + \"y\" third:true}"}, {"concat-token-element", "[abc + \"y\" \"p\" + \"q\"]"},
+	{"concat-after-number-member", "{a:1 b:\"x\" + \"y\" c:def}"},
 	{"nested", "[[a][b [c]]]"}, {"newlines", "{\n  a: b\n  c: [\n    d\n  ]\n}"}, {"unicode", "{é:\"\\u00e9\" k:ü}"},
 }
 
